@@ -96,6 +96,16 @@ def r24_1(ctx, rep):
             if pieces is None:
                 continue
             pieces = [p_ if isinstance(p_, str) else inlined(p_, fn.body) for p_ in pieces]
+
+            def _chosen_operator(p_):
+                """a local that every branch binds to the operator or to a literal translation of it (`python_op = "**"` / `python_op = op`)"""
+                if not isinstance(p_, ast.Name):
+                    return False
+                vals = [inlined(a.value, fn.body, keep={p_.id}) for a in ast.walk(fn) if isinstance(a, ast.Assign) and any(is_name(t, p_.id) for t in a.targets)]
+                return len(vals) >= 2 and all(_is_operator_field(x) or const_str(x) is not None for x in vals) and any(_is_operator_field(x) for x in vals)
+
+            pieces = [p_ if isinstance(p_, str) or not _chosen_operator(p_) else ast.Attribute(value=ast.Name(id="tree", ctx=ast.Load()), attr="operator", ctx=ast.Load())
+                      for p_ in pieces]
             tmpl = "".join(p_ if isinstance(p_, str) else "{%s}" % norm(p_) for p_ in pieces)
             if tmpl in seen:
                 continue
@@ -452,8 +462,23 @@ def _template_pieces(v):
                 auto += 1
             elif field.isdigit():
                 e = v.args[int(field)] if int(field) < len(v.args) else None
-            else:
+            elif field in kw:
                 e = kw.get(field)
+            else:
+                # {tree.operator.name}: attribute / item access on a keyword argument
+                e = None
+                try:
+                    fe = ast.parse(field, mode="eval").body
+                    base = fe
+                    while isinstance(base, (ast.Attribute, ast.Subscript)):
+                        base = base.value
+                    if isinstance(base, ast.Name) and base.id in kw:
+                        class _Sub(ast.NodeTransformer):
+                            def visit_Name(self, n, _b=base.id):
+                                return kw[_b] if n.id == _b else n
+                        e = _Sub().visit(fe)
+                except SyntaxError:
+                    e = None
             if e is None:
                 return None
             out.append(e)
